@@ -11,7 +11,7 @@ def bbA (s : St) (h : Header) : St :=
   { s with blk := some { height := h.height, time := h.time, proposer := h.proposer } }
 
 /-- stage B: governance punishes the voters named in the evidence -/
-def bbGov (s : St) (ev : List Hex) : St × List Int :=
+def bGov (s : St) (ev : List Hex) : St × List Int :=
   ev.foldl (fun (acc, l) a => let (acc', sl) := govPunish acc a; (acc', l ++ [sl])) (s, [])
 
 /-- stage C: eligible delegatees from the committed ledger, limiter reset -/
@@ -21,7 +21,7 @@ def bbC (s : St) (minPower : Int) : St :=
            limiter := Limiter.reset all s.active.maxValidatorCnt s.active.maxIndividualStakeRatio s.active.maxUpdatableStakeRatio }
 
 /-- stage D: the stake controller slashes the byzantine validators -/
-def bbStake (s : St) (ev : List Hex) : St × List Int :=
+def bStake (s : St) (ev : List Hex) : St × List Int :=
   ev.foldl (fun (acc, l) a =>
     match stakePunish acc a with
     | (acc', some sl) => (acc', l ++ [sl])
@@ -33,61 +33,61 @@ def voteStep (height : Int) (rl : KMap Delegatee) (acc : Res (St × Nat)) (v : V
   | .panic p => .panic p
   | .ok (s, issued) => processVote s height rl v issued
 
-def bbVotes (s : St) (height : Int) (rl : KMap Delegatee) (votes : List VoteIn) : Res (St × Nat) :=
+def bVotes (s : St) (height : Int) (rl : KMap Delegatee) (votes : List VoteIn) : Res (St × Nat) :=
   votes.foldl (voteStep height rl) (Res.ok (s, 0))
 
 /-- the ledger version the rewards are computed from -/
 def hopOf (height : Int) : Int := if height - 4 < 0 then 1 else height - 4
 
-theorem beginBlock_eq (s : St) (h : Header) :
+theorem beginBlock_staged (s : St) (h : Header) :
     beginBlock s h =
       if h.height ≠ s.lastHeight + 1 then (s, { panic := "BeginBlock: error block height" }) else
-      match amountToPower (bbGov (bbA s h) h.evidence).1.active.minValidatorStake with
-      | .panic p => ((bbGov (bbA s h) h.evidence).1, { panic := p })
+      match amountToPower (bGov (bbA s h) h.evidence).1.active.minValidatorStake with
+      | .panic p => ((bGov (bbA s h) h.evidence).1, { panic := p })
       | .ok minPower =>
         if h.votes.isEmpty then
-          ((bbStake (bbC (bbGov (bbA s h) h.evidence).1 minPower) h.evidence).1, { punishG := (bbGov (bbA s h) h.evidence).2 })
+          ((bStake (bbC (bGov (bbA s h) h.evidence).1 minPower) h.evidence).1, { punishG := (bGov (bbA s h) h.evidence).2 })
         else
-        match (bbStake (bbC (bbGov (bbA s h) h.evidence).1 minPower) h.evidence).1.delegs.at? (hopOf h.height) with
-        | none => ((bbStake (bbC (bbGov (bbA s h) h.evidence).1 minPower) h.evidence).1,
+        match (bStake (bbC (bGov (bbA s h) h.evidence).1 minPower) h.evidence).1.delegs.at? (hopOf h.height) with
+        | none => ((bStake (bbC (bGov (bbA s h) h.evidence).1 minPower) h.evidence).1,
                    { panic := "BeginBlock: reward ledger version does not exist" })
         | some rl =>
-          match bbVotes (bbStake (bbC (bbGov (bbA s h) h.evidence).1 minPower) h.evidence).1 h.height rl h.votes with
-          | .panic p => ((bbStake (bbC (bbGov (bbA s h) h.evidence).1 minPower) h.evidence).1, { panic := p })
+          match bVotes (bStake (bbC (bGov (bbA s h) h.evidence).1 minPower) h.evidence).1 h.height rl h.votes with
+          | .panic p => ((bStake (bbC (bGov (bbA s h) h.evidence).1 minPower) h.evidence).1, { panic := p })
           | .ok (s', issued) =>
-            (s', { issued := some issued, punishS := (bbStake (bbC (bbGov (bbA s h) h.evidence).1 minPower) h.evidence).2,
-                   punishG := (bbGov (bbA s h) h.evidence).2 }) := by
+            (s', { issued := some issued, punishS := (bStake (bbC (bGov (bbA s h) h.evidence).1 minPower) h.evidence).2,
+                   punishG := (bGov (bbA s h) h.evidence).2 }) := by
   rfl
 
 /-- the result state of `beginBlock` is the input, or the state after one of the stages -/
 theorem beginBlock_ind (s : St) (h : Header) (P : St → Prop) (h0 : P s)
-    (hB : h.height = s.lastHeight + 1 → P (bbGov (bbA s h) h.evidence).1)
+    (hB : h.height = s.lastHeight + 1 → P (bGov (bbA s h) h.evidence).1)
     (hD : h.height = s.lastHeight + 1 → ∀ minPower,
-      amountToPower (bbGov (bbA s h) h.evidence).1.active.minValidatorStake = .ok minPower →
-      P (bbStake (bbC (bbGov (bbA s h) h.evidence).1 minPower) h.evidence).1)
+      amountToPower (bGov (bbA s h) h.evidence).1.active.minValidatorStake = .ok minPower →
+      P (bStake (bbC (bGov (bbA s h) h.evidence).1 minPower) h.evidence).1)
     (hE : h.height = s.lastHeight + 1 → ∀ minPower rl s' issued,
-      amountToPower (bbGov (bbA s h) h.evidence).1.active.minValidatorStake = .ok minPower →
-      (bbStake (bbC (bbGov (bbA s h) h.evidence).1 minPower) h.evidence).1.delegs.at? (hopOf h.height) = some rl →
-      bbVotes (bbStake (bbC (bbGov (bbA s h) h.evidence).1 minPower) h.evidence).1 h.height rl h.votes = .ok (s', issued) →
+      amountToPower (bGov (bbA s h) h.evidence).1.active.minValidatorStake = .ok minPower →
+      (bStake (bbC (bGov (bbA s h) h.evidence).1 minPower) h.evidence).1.delegs.at? (hopOf h.height) = some rl →
+      bVotes (bStake (bbC (bGov (bbA s h) h.evidence).1 minPower) h.evidence).1 h.height rl h.votes = .ok (s', issued) →
       P s') :
     P (beginBlock s h).1 := by
-  rw [beginBlock_eq]
+  rw [beginBlock_staged]
   by_cases hh : h.height ≠ s.lastHeight + 1
   · rw [if_pos hh]; exact h0
   rw [if_neg hh]
   have hh' : h.height = s.lastHeight + 1 := by omega
-  cases ha : amountToPower (bbGov (bbA s h) h.evidence).1.active.minValidatorStake with
+  cases ha : amountToPower (bGov (bbA s h) h.evidence).1.active.minValidatorStake with
   | panic p => exact hB hh'
   | ok minPower =>
     simp only []
     by_cases hv : h.votes.isEmpty = true
     · rw [if_pos hv]; exact hD hh' minPower ha
     rw [if_neg hv]
-    cases hat : (bbStake (bbC (bbGov (bbA s h) h.evidence).1 minPower) h.evidence).1.delegs.at? (hopOf h.height) with
+    cases hat : (bStake (bbC (bGov (bbA s h) h.evidence).1 minPower) h.evidence).1.delegs.at? (hopOf h.height) with
     | none => exact hD hh' minPower ha
     | some rl =>
       simp only []
-      cases hvo : bbVotes (bbStake (bbC (bbGov (bbA s h) h.evidence).1 minPower) h.evidence).1 h.height rl h.votes with
+      cases hvo : bVotes (bStake (bbC (bGov (bbA s h) h.evidence).1 minPower) h.evidence).1 h.height rl h.votes with
       | panic p => exact hD hh' minPower ha
       | ok res =>
         obtain ⟨s', issued⟩ := res
@@ -96,16 +96,16 @@ theorem beginBlock_ind (s : St) (h : Header) (P : St → Prop) (h0 : P s)
 /-- when the reward event is emitted, all stages ran -/
 theorem beginBlock_issued {s : St} {h : Header} {n : Nat} (hi : (beginBlock s h).2.issued = some n) :
     h.height = s.lastHeight + 1 ∧ h.votes.isEmpty = false ∧ ∃ minPower rl s',
-      amountToPower (bbGov (bbA s h) h.evidence).1.active.minValidatorStake = .ok minPower ∧
-      (bbStake (bbC (bbGov (bbA s h) h.evidence).1 minPower) h.evidence).1.delegs.at? (hopOf h.height) = some rl ∧
-      bbVotes (bbStake (bbC (bbGov (bbA s h) h.evidence).1 minPower) h.evidence).1 h.height rl h.votes = .ok (s', n) ∧
+      amountToPower (bGov (bbA s h) h.evidence).1.active.minValidatorStake = .ok minPower ∧
+      (bStake (bbC (bGov (bbA s h) h.evidence).1 minPower) h.evidence).1.delegs.at? (hopOf h.height) = some rl ∧
+      bVotes (bStake (bbC (bGov (bbA s h) h.evidence).1 minPower) h.evidence).1 h.height rl h.votes = .ok (s', n) ∧
       (beginBlock s h).1 = s' := by
-  rw [beginBlock_eq] at hi ⊢
+  rw [beginBlock_staged] at hi ⊢
   by_cases hh : h.height ≠ s.lastHeight + 1
   · rw [if_pos hh] at hi; cases hi
   rw [if_neg hh] at hi ⊢
   have hh' : h.height = s.lastHeight + 1 := by omega
-  cases ha : amountToPower (bbGov (bbA s h) h.evidence).1.active.minValidatorStake with
+  cases ha : amountToPower (bGov (bbA s h) h.evidence).1.active.minValidatorStake with
   | panic p => rw [ha] at hi; cases hi
   | ok minPower =>
     rw [ha] at hi
@@ -113,12 +113,12 @@ theorem beginBlock_issued {s : St} {h : Header} {n : Nat} (hi : (beginBlock s h)
     by_cases hv : h.votes.isEmpty = true
     · rw [if_pos hv] at hi; cases hi
     rw [if_neg hv] at hi ⊢
-    cases hat : (bbStake (bbC (bbGov (bbA s h) h.evidence).1 minPower) h.evidence).1.delegs.at? (hopOf h.height) with
+    cases hat : (bStake (bbC (bGov (bbA s h) h.evidence).1 minPower) h.evidence).1.delegs.at? (hopOf h.height) with
     | none => rw [hat] at hi; cases hi
     | some rl =>
       rw [hat] at hi
       simp only [] at hi ⊢
-      cases hvo : bbVotes (bbStake (bbC (bbGov (bbA s h) h.evidence).1 minPower) h.evidence).1 h.height rl h.votes with
+      cases hvo : bVotes (bStake (bbC (bGov (bbA s h) h.evidence).1 minPower) h.evidence).1 h.height rl h.votes with
       | panic p => rw [hvo] at hi; cases hi
       | ok res =>
         obtain ⟨s', issued⟩ := res
@@ -182,8 +182,8 @@ theorem govPunish_fr (s : St) (a : Hex) : OnlyProps s (govPunish s a).1 := by
     · refine h.trans ?_
       simp [OnlyProps, BFr]
 
-theorem bbGov_fr (s : St) (ev : List Hex) : OnlyProps s (bbGov s ev).1 := by
-  unfold bbGov
+theorem bGov_fr (s : St) (ev : List Hex) : OnlyProps s (bGov s ev).1 := by
+  unfold bGov
   suffices h : ∀ (acc : St × List Int), OnlyProps s acc.1 → OnlyProps s (ev.foldl (fun (x : St × List Int) a =>
       match x with
       | (acc, l) => let (acc', sl) := govPunish acc a; (acc', l ++ [sl])) acc).1 from h (s, []) (OnlyProps.refl s)
@@ -211,8 +211,8 @@ theorem stakePunish_fr (s : St) (a : Hex) : OnlyDelegs s (stakePunish s a).1 := 
   · exact OnlyDelegs.refl s
   · simp [OnlyDelegs, BFr]
 
-theorem bbStake_fr (s : St) (ev : List Hex) : OnlyDelegs s (bbStake s ev).1 := by
-  unfold bbStake
+theorem bStake_fr (s : St) (ev : List Hex) : OnlyDelegs s (bStake s ev).1 := by
+  unfold bStake
   suffices h : ∀ (acc : St × List Int), OnlyDelegs s acc.1 → OnlyDelegs s (ev.foldl (fun (x : St × List Int) a =>
       match x with
       | (acc, l) =>
@@ -379,8 +379,8 @@ theorem foldl_voteStep_vfr (height : Int) (rl : KMap Delegatee) (votes : List Vo
       rw [hp] at h
       exact (processVote_vfr (by simpa [voteStep] using hp)).trans (ih s2 i2 h)
 
-theorem bbVotes_vfr {s s' : St} {height : Int} {rl : KMap Delegatee} {votes : List VoteIn} {i' : Nat}
-    (h : bbVotes s height rl votes = .ok (s', i')) : VFr s s' :=
+theorem bVotes_vfr {s s' : St} {height : Int} {rl : KMap Delegatee} {votes : List VoteIn} {i' : Nat}
+    (h : bVotes s height rl votes = .ok (s', i')) : VFr s s' :=
   foldl_voteStep_vfr _ _ _ _ _ _ _ h
 
 /-- `beginBlock` never touches the governance parameters, the frozen proposals, accounts, the
@@ -388,11 +388,11 @@ theorem bbVotes_vfr {s s' : St} {height : Int} {rl : KMap Delegatee} {votes : Li
 theorem beginBlock_bfr (s : St) (h : Header) : BFr s (beginBlock s h).1 := by
   apply beginBlock_ind s h (fun x => BFr s x)
   · exact BFr.refl s
-  · intro _; exact (bbA_fr s h).1.trans (bbGov_fr _ _).1
+  · intro _; exact (bbA_fr s h).1.trans (bGov_fr _ _).1
   · intro _ m _
-    exact (((bbA_fr s h).1.trans (bbGov_fr _ _).1).trans (bbC_fr _ m).1).trans (bbStake_fr _ _).1
+    exact (((bbA_fr s h).1.trans (bGov_fr _ _).1).trans (bbC_fr _ m).1).trans (bStake_fr _ _).1
   · intro _ m rl s' issued _ _ hv
-    exact ((((bbA_fr s h).1.trans (bbGov_fr _ _).1).trans (bbC_fr _ m).1).trans (bbStake_fr _ _).1).trans (bbVotes_vfr hv).1
+    exact ((((bbA_fr s h).1.trans (bGov_fr _ _).1).trans (bbC_fr _ m).1).trans (bStake_fr _ _).1).trans (bVotes_vfr hv).1
 
 /-- the block context after `beginBlock`: unchanged, or the fresh context of height `lastHeight + 1` -/
 theorem beginBlock_blk (s : St) (h : Header) :
@@ -403,10 +403,10 @@ theorem beginBlock_blk (s : St) (h : Header) :
       x.blk = some { height := h.height, time := h.time, proposer := h.proposer }))
   · exact Or.inl rfl
   · intro hh; right; refine ⟨hh, ?_⟩
-    rw [(bbGov_fr _ _).2.2.2.2.1]; rfl
+    rw [(bGov_fr _ _).2.2.2.2.1]; rfl
   · intro hh m _; right; refine ⟨hh, ?_⟩
-    rw [(bbStake_fr _ _).2.2.2.2.1, (bbC_fr _ m).2.2, (bbGov_fr _ _).2.2.2.2.1]; rfl
+    rw [(bStake_fr _ _).2.2.2.2.1, (bbC_fr _ m).2.2, (bGov_fr _ _).2.2.2.2.1]; rfl
   · intro hh m rl s' issued _ _ hv; right; refine ⟨hh, ?_⟩
-    rw [(bbVotes_vfr hv).2.2.1, (bbStake_fr _ _).2.2.2.2.1, (bbC_fr _ m).2.2, (bbGov_fr _ _).2.2.2.2.1]; rfl
+    rw [(bVotes_vfr hv).2.2.1, (bStake_fr _ _).2.2.2.2.1, (bbC_fr _ m).2.2, (bGov_fr _ _).2.2.2.2.1]; rfl
 
 end Rigo
